@@ -24,6 +24,9 @@ LATE = {
  "C24-G": "system `torsional_oscillator_default_reference`: a Spring with the default reference on an axis-aligned joint (the undeformed angle is exactly 0.0)",
  "C26-G": "a third live mesh of the same degree and element count on another partition is asked for the same (xi, el) right before every call",
  "C26-H": "object family `s2s0`: the frictionless contact (mu = 0), whose tangent tables exist all the same",
+ "C12-G": "after the caller has scaled the stiffness arrays a law was built from, the law must still be hyperelastic (central differences of its own energy and forces)",
+ "C12-H": "the stiffness vectors are handed over typed as integers for every second law object",
+ "C13-H": "`element_number` for several parameters at once, in any order, the end point among them",
  "C03-E": "in-place histories in C03: every rotation-vector routine is called on one buffer that is overwritten between calls (and on a view that is scaled in place) and must return exactly what it returns for a fresh array",
  "C03-F": "the quaternion tangent maps' derivatives with `normalize=False` (QuatKernel.tla `dTun`, `dTi`); the kernel's large-ratio points are replayed under C03 too",
  "C07-E": "consecutive records of one element at the same configuration with other velocities (lattice records) and `la_c(q, -u)` right after `la_c(q, u)` on Revolute joints",
